@@ -34,6 +34,24 @@ Interpretation (decisions where the property text leaves room):
    data"), which must be exactly val -> [val] if positive int else [].
  * "already-current only rewrites schemaVersion": at v = SCHEMA_VERSION (and for a version from the
    future, which create_migrations documents as "downgrading") the list is the single UpdateRecord.
+ * VARIANT START SHAPES.  migrations.py contains steps guarded by "if <column> not in <table>.columns"
+   / "if <table> not in all_tables" / maybe_add_column, because documents of one version number exist
+   in more than one shape (migration 38 was shipped in two conflicting versions, which migration 39
+   reconciles; migration 1 copes with version-0 test documents that lack tables; migration 7 with
+   documents that already have the summarySource columns).  "Any document at any older version" is
+   read to include them: a GUARD UNIT = the columns one guarded block adds (they were shipped together,
+   so a unit is atomic: memo/label/enabled is one unit) or one guarded table; a variant document at
+   version v is the linear-history document with any subset of the units of LATER migrations toggled
+   (absent -> added with the col_info of schema.py, as the other branch of history did; present ->
+   removed), then populated like every other document.  The units are a fixed table (GUARD_UNITS_FIXED,
+   written from the history, independent of the code) united with whatever guards an AST scan of the
+   current migrations.py finds.  For these documents the clauses are the same (succeeds; metadata schema
+   == schema_create_actions() column by column; data in step with schema; schemaVersion current; user
+   tables untouched) plus RE-MIGRATION IS A NO-OP (create_migrations on the result emits the single
+   schemaVersion update and applying it changes nothing).  They are judged by the direct oracle (and the
+   TableDataSet-vs-model tie of the applied actions); the Lean theorem (i) and its generated per-version
+   obligations cover only the linear-history start schemas, NOT the variant ones.  Variant documents
+   carry no hostile text, so a failure on one is never a recorded finding (own signature prefix).
 Findings are keyed by "migration N raises <Exc>: <table>.<column> = <shape of the text>" (shape_of:
 not JSON / deeply nested JSON / JSON list / JSON object / JSON scalar); an exception on a document
 without injected text is keyed "...: benign document" and is never a known finding.
@@ -235,15 +253,177 @@ def _mods():
   return translate._mig_modules()
 
 
+# --------------------------------------------------------------------------- variant start shapes
+
+# [migration N that holds the guard, "cols" | "table", table, columns of the unit | None].  Written from the
+# history of migrations.py (independent of the code under test):
+#   m1  "extra-lax": version-0 (test) documents without _grist_Attachments / _grist_TabItems / schemaVersion;
+#   m7  maybe_add_column: documents that already have summarySourceTable / summarySourceCol;
+#   m38/m39: one shipped migration 38 added _grist_Triggers.memo/label/enabled, the other
+#            _grist_Views_section.description; migration 39 adds whichever is missing.
+GUARD_UNITS_FIXED = [
+  [1, "table", "_grist_Attachments", None],
+  [1, "table", "_grist_TabItems", None],
+  [1, "cols", "_grist_DocInfo", ["schemaVersion"]],
+  [7, "cols", "_grist_Tables", ["summarySourceTable"]],
+  [7, "cols", "_grist_Tables_column", ["summarySourceCol"]],
+  [39, "cols", "_grist_Triggers", ["memo", "label", "enabled"]],
+  [39, "cols", "_grist_Views_section", ["description"]],
+]
+
+
+def _unit_key(u):
+  return (u[0], u[1], u[2], tuple(sorted(u[3] or ())))
+
+
+def _const_str(node):
+  import ast
+  if isinstance(node, ast.Constant) and isinstance(node.value, str):
+    return node.value
+  return None
+
+
+def _guard_of(test):
+  """('table', col) for `'col' not in <x>.all_tables['table'].columns`, ('table', None) for
+  `'table' not in <x>.all_tables`, else None."""
+  import ast
+  if not (isinstance(test, ast.Compare) and len(test.ops) == 1 and isinstance(test.ops[0], ast.NotIn)):
+    return None
+  left = _const_str(test.left)
+  c = test.comparators[0]
+  if left is None or not isinstance(c, ast.Attribute):
+    return None
+  if c.attr == "all_tables":
+    return (left, None)
+  if c.attr == "columns" and isinstance(c.value, ast.Subscript):
+    sub = c.value
+    sl = sub.slice
+    if hasattr(ast, "Index") and isinstance(sl, getattr(ast, "Index")):     # python < 3.9
+      sl = sl.value
+    t = _const_str(sl)
+    if t is not None and isinstance(sub.value, ast.Attribute) and sub.value.attr == "all_tables":
+      return (t, left)
+  return None
+
+
+def _added_in(stmts):
+  """(table, column) of the add_column(...) calls in the statements, NOT descending into nested `if`s
+  (a nested guard is its own unit)."""
+  import ast
+  out = []
+  stack = list(stmts)
+  while stack:
+    node = stack.pop(0)
+    if isinstance(node, ast.If):
+      continue
+    if isinstance(node, ast.Call) and getattr(node.func, "id", getattr(node.func, "attr", None)) == "add_column" \
+       and len(node.args) >= 2:
+      t, c = _const_str(node.args[0]), _const_str(node.args[1])
+      if t is not None and c is not None:
+        out.append((t, c))
+    stack[0:0] = list(ast.iter_child_nodes(node))
+  return out
+
+
+def discover_guards():
+  """Guard units found by an AST scan of the CURRENT migrations.py (so that a guard added later is
+  exercised without editing this file).  None if the scan fails (the fixed table still applies)."""
+  import ast
+  try:
+    migrations = _mods()[2]
+    path = migrations.__file__
+    if path.endswith(".pyc"):
+      path = path[:-1]
+    with open(path) as f:
+      tree = ast.parse(f.read())
+    out = []
+    for fn in tree.body:
+      if not (isinstance(fn, ast.FunctionDef) and fn.name.startswith("migration") and fn.name[9:].isdigit()):
+        continue
+      n = int(fn.name[9:])
+      for node in ast.walk(fn):
+        if isinstance(node, ast.If):
+          g = _guard_of(node.test)
+          if g is None:
+            continue
+          if g[1] is None:
+            out.append([n, "table", g[0], None])
+          else:
+            cols = [g[1]] + [c for (t, c) in _added_in(node.body) if t == g[0] and c != g[1]]
+            out.append([n, "cols", g[0], list(dict.fromkeys(cols))])
+        elif isinstance(node, ast.Call) and getattr(node.func, "id", None) == "maybe_add_column" and len(node.args) >= 3:
+          t, c = _const_str(node.args[1]), _const_str(node.args[2])
+          if t is not None and c is not None:
+            out.append([n, "cols", t, [c]])
+    return out
+  except Exception:      # noqa: BLE001 -- the scan is a convenience, never a verdict
+    return None
+
+
+def guard_units():
+  """(units, number found only by the scan, scan_ok)."""
+  units = [list(u) for u in GUARD_UNITS_FIXED]
+  seen = {_unit_key(u) for u in units}
+  found = discover_guards()
+  extra = 0
+  for u in found or []:
+    # a scanned unit that shares a column/table with a fixed unit is the same guard seen differently
+    # (e.g. after an edit of the guarded block): the fixed unit stays authoritative
+    if _unit_key(u) in seen:
+      continue
+    if any(f[0] == u[0] and f[2] == u[2] and (f[1] == "table" or u[1] == "table" or set(f[3]) & set(u[3]))
+           for f in GUARD_UNITS_FIXED):
+      continue
+    seen.add(_unit_key(u))
+    units.append(u)
+    extra += 1
+  return units, extra, found is not None
+
+
+def unit_label(u):
+  return u[2] if u[1] == "table" else "%s.%s" % (u[2], "/".join(u[3]))
+
+
+def apply_variant(td, variant, actions, schema):
+  """Toggle each unit on the (still empty) version-v document.  A guarded table that is present is
+  removed; a guarded column group that is wholly present is removed, wholly absent is added with the
+  col_info schema.py declares (what the other branch of history added).  Anything else (table missing,
+  group half present, column unknown to schema.py) is left alone.  Returns the labels really applied."""
+  applied = []
+  if not variant:
+    return applied
+  cur = {a.table_id: {c['id']: c for c in a.columns} for a in schema.schema_create_actions()}
+  for u in variant:
+    kind, t, cols = u[1], u[2], u[3]
+    if t not in td.all_tables:
+      continue
+    if kind == "table":
+      td.apply_doc_action(actions.RemoveTable(t))
+      applied.append("-" + t)
+      continue
+    have = [c in td.all_tables[t].columns for c in cols]
+    if all(have):
+      for c in cols:
+        td.apply_doc_action(actions.RemoveColumn(t, c))
+      applied.append("-" + unit_label(u))
+    elif not any(have) and all(c in cur.get(t, {}) for c in cols):
+      for c in cols:
+        td.apply_doc_action(actions.AddColumn(t, c, dict(cur[t][c])))
+      applied.append("+" + unit_label(u))
+  return applied
+
+
 class DocGen(object):
   """A version-v document with plausible metadata and user data."""
 
-  def __init__(self, rng, v, flavour=None):
+  def __init__(self, rng, v, flavour=None, variant=None):
     from gx import translate_migrations as translate
     self.rng = rng
     self.v = v
     self.actions, self.schema, self.migrations, self.tds, _ = _mods()
     self.td = translate.mig_doc_at(v)
+    # variant start shape: toggled BEFORE the document is populated, so the extra columns get typed values
+    self.variant_applied = apply_variant(self.td, variant or [], self.actions, self.schema)
     self.flav = flavour or {}
     self.ctx = {}
     self.user = []        # list of dict(tableId, ref, cols=[dict(colId,type,isFormula,formula,ref,...)], rows)
@@ -524,12 +704,35 @@ def image_conv(val):
   return [val] if isinstance(val, int) and val > 0 else []
 
 
-def check_case(td, v, user, expect_schema_acts, want_tie=True):
+def schema_diff_lines(got, cur):
+  """The property's schema clause column by column: every table and column of schema.py present with
+  the declared col_info, nothing else present."""
+  lines = []
+  for t in sorted(set(got) | set(cur)):
+    if t not in got:
+      lines.append("table %s missing" % t)
+    elif t not in cur:
+      lines.append("unexpected table %s" % t)
+    else:
+      for c in sorted(set(got[t]) | set(cur[t])):
+        if c not in got[t]:
+          lines.append("column %s.%s missing" % (t, c))
+        elif c not in cur[t]:
+          lines.append("unexpected column %s.%s" % (t, c))
+        elif got[t][c] != cur[t][c]:
+          lines.append("column %s.%s is %r, schema.py says %r" % (t, c, got[t][c], cur[t][c]))
+  return lines
+
+
+def check_case(td, v, user, expect_schema_acts, want_tie=True, variant=None):
   """Run the real create_migrations + TableDataSet on the document `td` (version v).
+  `variant` = None, or the list of toggles that made this a variant start shape: then every violation
+  signature carries the prefix "variant start shape [...]: " and re-migration is checked too.
   Returns dict(finding=(signature-less tuple)|None, problems=[(kind, signature, detail)], tie=payload|None,
   counters=[...])."""
   actions, schema, migrations, tds, _ = _mods()
   out = {"raised": None, "problems": [], "tie": None, "counters": [], "acts": None}
+  pre = ("variant start shape [%s]: " % ", ".join(variant)) if variant else ""
   before = snapshot(td)
   user_before = {t["tableId"]: copy.deepcopy((td.all_tables[t["tableId"]].row_ids,
                                                dict(td.all_tables[t["tableId"]].columns))) for t in user}
@@ -550,7 +753,7 @@ def check_case(td, v, user, expect_schema_acts, want_tie=True):
     return out
   out["acts"] = [tok_action(a) for a in acts]
   if snapshot(td) != before:
-    out["problems"].append(("violation", "create_migrations modified the document it was given", ""))
+    out["problems"].append(("violation", pre + "create_migrations modified the document it was given", ""))
     return out
   try:
     td.apply_doc_actions(acts)
@@ -569,14 +772,15 @@ def check_case(td, v, user, expect_schema_acts, want_tie=True):
       if got.get(t) != cur.get(t):
         g, c = got.get(t) or {}, cur.get(t) or {}
         diff.append((t, sorted(k for k in set(g) | set(c) if g.get(k) != c.get(k))))
-    P.append(("violation", "migrated metadata schema differs from schema_create_actions()", repr(diff)[:300]))
+    P.append(("violation", pre + "migrated metadata schema differs from schema_create_actions()",
+              (repr(diff) + " :: " + "; ".join(schema_diff_lines(got, cur)))[:400]))
   for t, cols in got.items():
     d = td.all_tables[t]
     if list(d.columns) != list(cols) or any(len(x) != len(d.row_ids) for x in d.columns.values()):
-      P.append(("violation", "metadata table data out of step with its schema after migration", t))
+      P.append(("violation", pre + "metadata table data out of step with its schema after migration", t))
   di = td.all_tables["_grist_DocInfo"]
   if di.columns.get("schemaVersion") != [V] * len(di.row_ids) or di.row_ids != [1]:
-    P.append(("violation", "schemaVersion is not current after migration", repr(di.columns.get("schemaVersion"))))
+    P.append(("violation", pre + "schemaVersion is not current after migration", repr(di.columns.get("schemaVersion"))))
   # user tables
   classes = [classify(a) for a in acts]
   renames = {}
@@ -584,47 +788,64 @@ def check_case(td, v, user, expect_schema_acts, want_tie=True):
   for a, cl in zip(acts, classes):
     n = type(a).__name__
     if cl == "mixed":
-      P.append(("violation", "migration action mixes a metadata and a user table", repr(tok_action(a))[:200]))
+      P.append(("violation", pre + "migration action mixes a metadata and a user table", repr(tok_action(a))[:200]))
     if cl == "user-record":
       ok = (n == "BulkUpdateRecord" and v < 17 and len(a.columns) == 1 and
             user_types.get(_orig(renames, a.table_id), {}).get(list(a.columns)[0], ("", True)) == ("Image", False))
       if not ok:
-        P.append(("violation", "migration emits a record action on a user table", repr(tok_action(a))[:200]))
+        P.append(("violation", pre + "migration emits a record action on a user table", repr(tok_action(a))[:200]))
     if cl == "user-schema":
       if n == "RenameTable":
         renames[a.new_table_id] = _orig(renames, a.old_table_id)
       elif n == "RemoveColumn":
         removed.setdefault(_orig(renames, a.table_id), set()).add(a.col_id)
       elif n not in ("ModifyColumn", "AddColumn"):
-        P.append(("violation", "unexpected schema action on a user table", repr(tok_action(a))[:200]))
+        P.append(("violation", pre + "unexpected schema action on a user table", repr(tok_action(a))[:200]))
   now_name = {orig: new for new, orig in renames.items()}
   for tname, (rows0, cols0) in user_before.items():
     cur_name = now_name.get(tname, tname)
     if cur_name not in td.all_tables:
-      P.append(("violation", "user table missing after migration", tname))
+      P.append(("violation", pre + "user table missing after migration", tname))
       continue
     d = td.all_tables[cur_name]
     if d.row_ids != rows0:
-      P.append(("violation", "user table row ids changed by migration", tname))
+      P.append(("violation", pre + "user table row ids changed by migration", tname))
     for c, vals0 in cols0.items():
       if c not in d.columns:
         if not (v < 7 and c in removed.get(tname, ()) and (tname, c) in m7_removable):
-          P.append(("violation", "user table column removed by migration", "%s.%s" % (tname, c)))
+          P.append(("violation", pre + "user table column removed by migration", "%s.%s" % (tname, c)))
         continue
       exp = vals0
       if v < 17 and user_types[tname].get(c) == ("Image", False):
         exp = [image_conv(x) for x in vals0]
         out["counters"].append("image_conversion_checked")
       if [tok(x) for x in d.columns[c]] != [tok(x) for x in exp]:
-        P.append(("violation", "user table cells changed by migration", "%s.%s" % (tname, c)))
+        P.append(("violation", pre + "user table cells changed by migration", "%s.%s" % (tname, c)))
   # already current (or from the future): only the version update
   if v >= V:
     exp = [["UpdateRecord", "_grist_DocInfo", 1, {"schemaVersion": tok(V)}]]
     if out["acts"] != exp:
-      P.append(("violation", "already-current document gets more than the schemaVersion update", repr(out["acts"])[:300]))
+      P.append(("violation", pre + "already-current document gets more than the schemaVersion update", repr(out["acts"])[:300]))
     chg = _diff_snap(before, after)
     if any(x != ("_grist_DocInfo", "schemaVersion") for x in chg):
-      P.append(("violation", "already-current document changed outside schemaVersion", repr(chg)[:200]))
+      P.append(("violation", pre + "already-current document changed outside schemaVersion", repr(chg)[:200]))
+  # --- variant start shapes: re-migrating the result is a no-op (single schemaVersion update, nothing changes)
+  if variant:
+    single = [["UpdateRecord", "_grist_DocInfo", 1, {"schemaVersion": tok(V)}]]
+    try:
+      acts2 = migrations.create_migrations(td.all_tables)
+      toks2 = [tok_action(a) for a in acts2]
+      td.apply_doc_actions(acts2)
+    except Exception as e:     # noqa: BLE001
+      P.append(("violation", pre + "re-migrating the migrated document raises %s" % type(e).__name__,
+                (str(e).splitlines() or [""])[0][:160]))
+    else:
+      if toks2 != single:
+        P.append(("violation", pre + "re-migrating the migrated document emits more than the schemaVersion update",
+                  repr(toks2)[:300]))
+      if snapshot(td) != after:
+        P.append(("violation", pre + "re-migrating the migrated document changes it", repr(_diff_snap(after, snapshot(td)))[:200]))
+      out["counters"].append("variant_remigration_checked")
   # --- ties with the generated data / theorem hypotheses
   if expect_schema_acts is not None:
     mine = [tok_action(a) for a, cl in zip(acts, classes) if cl == "meta-schema"]
@@ -676,10 +897,11 @@ def empty_docs_consistent():
 
 
 def build_case(spec):
-  """spec = {"v", "seed", "flavour", "inject": [[table, col, row_index|None, text]], "future": n|None}"""
+  """spec = {"v", "seed", "flavour", "inject": [[table, col, row_index|None, text]], "future": n|None,
+  "variant": [guard unit, ...]|None}"""
   import random
   rng = random.Random("c25/%s/%s" % (spec["v"], spec["seed"]))
-  g = DocGen(rng, spec["v"], spec.get("flavour") or {})
+  g = DocGen(rng, spec["v"], spec.get("flavour") or {}, spec.get("variant"))
   actions = g.actions
   for (t, c, ri, text) in spec.get("inject") or []:
     d = g.td.all_tables.get(t)
@@ -716,10 +938,14 @@ def run_spec(spec):
   V = g.schema.SCHEMA_VERSION
   exp = expected_schema_acts()
   v = spec["v"]
+  # a variant start shape has, by construction, other metadata schema actions than the linear-history
+  # document of its version: the generated per-version data does not apply to it (direct oracle only)
+  va = g.variant_applied
   res = check_case(g.td, (spec.get("future") or v), g.user,
-                   exp[v] if (v <= V and not spec.get("future")) else None,
-                   want_tie=spec.get("tie", False))
+                   exp[v] if (v <= V and not spec.get("future") and not va) else None,
+                   want_tie=spec.get("tie", False), variant=va or None)
   res["spec"] = spec
+  res["variant_applied"] = va
   acts = res.pop("acts", None) or []
   res["n_acts"] = len(acts)
   res["n_user_schema_actions"] = sum(
@@ -750,6 +976,7 @@ def signature_for(res):
   was injected) or 'benign document'."""
   where, cls, msg = res["raised"]
   inj = res["spec"].get("inject") or []
+  va = res.get("variant_applied")
   if where == "apply":
     head = "applying the emitted actions raises %s" % cls
   elif where == "setup":
@@ -758,6 +985,9 @@ def signature_for(res):
     head = "migration %s raises %s" % (where, cls)
   if len(inj) == 1:
     return "%s: %s.%s = %s" % (head, inj[0][0], inj[0][1], shape_of(inj[0][3]))
+  if va and not inj:
+    # never a recorded finding: those are keyed on one injected hostile text
+    return "variant start shape [%s]: %s: benign document" % (", ".join(va), head)
   if not inj:
     return head + ": benign document"
   return head + ": several hostile cells"
@@ -975,6 +1205,63 @@ def make_specs(ck, V):
     v = rng.choice(versions)
     specs.append({"v": v, "seed": rng.randrange(10 ** 9), "flavour": rng.choice(FLAVOURS),
                   "inject": "random-cell", "kind": "cell", "tie": False})
+  # (d) variant start shapes of the guarded migration steps
+  units, extra, scan_ok = guard_units()
+  ck.count("variant_guard_units", len(units))
+  ck.count("variant_guard_units_found_only_by_scan", extra)
+  ck.count("variant_guard_scan_ok", 1 if scan_ok else 0)
+  specs.extend(make_variant_specs(rng, quick, V, _EXPECT["ex"]["start"], units))
+  return specs
+
+
+def _subsets(items):
+  """Every non-empty subset, smallest first."""
+  out = []
+  for mask in range(1, 2 ** len(items)):
+    out.append([x for i, x in enumerate(items) if mask >> i & 1])
+  out.sort(key=len)
+  return out
+
+
+def make_variant_specs(rng, quick, V, start, units):
+  """Variant start shapes (see the module docstring).  `start[v]` = metadata schema of the linear-history
+  version-v document (to know which units can be toggled at v).
+   (d1) per migration N with guards, EVERY non-empty subset of its units (at most 15, else sampled), at
+        version N-1 (the historically conflicted version itself: fixed witnesses, every run) and at
+        one random earlier version (thorough: every earlier version x 2 documents);
+   (d2) random subsets of the units of ALL later migrations at random versions (mixes e.g. a v5 document
+        that already has summarySourceCol AND the webhook columns)."""
+  def usable(u, v):
+    return u[0] > v and u[2] in start[v]
+  specs = []
+  by_n = {}
+  for u in units:
+    by_n.setdefault(u[0], []).append(u)
+  for n in sorted(by_n):
+    if n - 1 > V or n < 1:
+      continue
+    vs_all = [v for v in range(0, min(n, V + 1)) if any(usable(u, v) for u in by_n[n])]
+    if not vs_all:
+      continue
+    last = vs_all[-1]
+    if quick:
+      vs = [(last, True)] + ([(rng.choice(vs_all[:-1]), False)] if len(vs_all) > 1 else [])
+    else:
+      vs = [(v, v == last) for v in vs_all for _ in range(2)]
+    for (v, witness) in vs:
+      here = [u for u in by_n[n] if usable(u, v)]
+      subs = _subsets(here) if len(here) <= 4 else [rng.sample(here, rng.randint(1, len(here))) for _ in range(15)]
+      for sub in subs:
+        specs.append({"v": v, "seed": rng.randrange(10 ** 9), "flavour": rng.choice(FLAVOURS), "variant": sub,
+                      "kind": "variant_witness" if witness else "variant", "tie": witness or not quick})
+  versions = [v for v in range(0, V) if any(usable(u, v) for u in units)]
+  for k in range((10 if quick else 400) if versions else 0):
+    v = rng.choice(versions)
+    here = [u for u in units if usable(u, v)]
+    sub = rng.sample(here, rng.randint(1, len(here)))
+    sub.sort(key=lambda u: units.index(u))
+    specs.append({"v": v, "seed": rng.randrange(10 ** 9), "flavour": rng.choice(FLAVOURS), "variant": sub,
+                  "kind": "variant_mixed", "tie": False})
   return specs
 
 
@@ -1013,13 +1300,24 @@ def run(ck):
   ck.rule = ("documents at EVERY version 0..%d (benign: right-shape JSON or non-JSON text in Text cells; plus one hostile "
              "text per document, swept over every free-text metadata column x %d text classes at selected versions and "
              "at random cells); non-trivial = version < current AND >= 10 metadata records AND >= 2 user tables AND the "
-             "migration chain ran to the end; distinct by (version, seed, injected cell)" % (V, len(HOSTILE)))
+             "migration chain ran to the end; distinct by (version, seed, injected cell); PLUS variant start shapes: for "
+             "every migration with guarded steps (if-column/table-not-in, maybe_add_column: m1, m7, m39 + whatever an AST "
+             "scan of migrations.py finds) every non-empty subset of its guard units toggled at the version just before it "
+             "(every run) and at earlier versions, and random mixes across migrations; these also re-migrate the result"
+             % (V, len(HOSTILE)))
   ck.assumptions = [
     "version-v documents are schema_version0() + registered migrations 1..v on a real TableDataSet, then populated",
     "typed cells hold values of their declared type in database representation (RefList/ChoiceList = None or JSON text)",
     "metadata is referentially consistent; table/column identifiers and column types are well-formed; everything else Text is free",
     "col_info dicts are abstracted to (type, isFormula, formula, reverseColId): checked on every emitted action",
     "totality of the Python migration bodies is searched, not proved (level partial)",
+    "variant start shapes (documents of one version number that already have / still lack the columns or tables of a guarded "
+    "migration step, e.g. the two shipped flavours of version 38) are judged by the DIRECT ORACLE ONLY (succeeds, schema == "
+    "schema.py column by column, data in step, schemaVersion current, user tables untouched, re-migration is a no-op) plus the "
+    "generic TableDataSet-vs-model tie of the applied actions; theorem migrate_schema_reaches_current and its generated "
+    "per-version obligations cover only the linear-history start schema of each version, not the variant ones",
+    "a guard unit (the columns one guarded block adds, e.g. memo/label/enabled) is atomic: half-present units are not "
+    "generated (no shipped version produced them); a toggled-in column gets the col_info schema.py declares",
   ]
   # 1. regenerate the Lean data from the current tree, build, audit
   try:
@@ -1096,9 +1394,23 @@ def report(ck, results, lean_ok=True):
     if res["raised"]:
       sig = signature_for(res)
       ck.count("raised")
+      if res.get("variant_applied"):
+        ck.count("variant_documents_raised")
       ck.violation(sig, "%s: %s" % (res["raised"][1], res["raised"][2]), rp)
       continue
     ck.count("completed")
+    if spec.get("variant"):
+      va = res.get("variant_applied") or []
+      if va:
+        ck.count("variant_documents_migrated")
+        if spec.get("kind") == "variant_witness":
+          ck.count("variant_witness:v%d[%s]" % (spec["v"], ", ".join(va)))
+        for lab in va:
+          ck.count("variant_toggle:" + lab)
+        if len(va) < len(spec["variant"]):
+          ck.count("variant_partly_applied")
+      else:
+        ck.count("variant_degenerate_nothing_toggled")
     for c in res["counters"]:
       ck.count(c)
     for fl in res["flags"]:
